@@ -29,6 +29,7 @@ def load_profile(prop):
     return REGISTRY[prop]()
 
 
+COVER_EVERY = {"quick": 50, "thorough": 50}
 QUICK_RUNS = {"C05": 5000, "C07": 8000, "C11": 8000, "C13": 5000, "C14": 10000, "C15": 3000, "C17": 12000}
 
 
@@ -59,6 +60,8 @@ def worker_main(prop, tier, k, nworkers, n_runs, budget, known, verif_seed, star
         "samples": [],
         "last_index": -1,
         "digests": {},
+        "lines": set(),
+        "cover_runs": 0,
     }
     i = start_index + k
     while i < start_index + n_runs:
@@ -112,6 +115,15 @@ def worker_main(prop, tier, k, nworkers, n_runs, budget, known, verif_seed, star
                 )
             else:
                 agg["failures"].append({"index": i, "seed": seed, "violations": res["violations"][:1]})
+        if i % COVER_EVERY[tier] == 0 and not res["violations"]:
+            # reach probe (1 run in COVER_EVERY): which barril source lines does a history execute?
+            try:
+                from sim.proc import run_in_child
+
+                agg["lines"].update(map(tuple, run_in_child(runner.child_cover, (profile, res["cfg"], res["ops"], known), timeout=60.0)))
+                agg["cover_runs"] += 1
+            except Exception:
+                pass
         if len(agg["samples"]) < 1 and k == 0:
             agg["samples"].append(
                 {
@@ -126,7 +138,7 @@ def worker_main(prop, tier, k, nworkers, n_runs, budget, known, verif_seed, star
             )
         i += nworkers
     agg["wall"] = time.monotonic() - t0
-    for key in ("shapes_nontrivial", "shapes_all", "bigrams", "fault_victims", "states"):
+    for key in ("shapes_nontrivial", "shapes_all", "bigrams", "fault_victims", "states", "lines"):
         agg[key] = sorted(agg[key], key=repr)
     return agg
 
@@ -213,6 +225,8 @@ def merge(results):
         "known_hits": {},
         "samples": [],
         "digests": {},
+        "lines": set(),
+        "cover_runs": 0,
     }
     for r in results:
         for key in ("runs", "steps", "oracle_checks"):
@@ -220,8 +234,9 @@ def merge(results):
         for key in ("faults_fired", "stats", "execs"):
             for kk, v in r[key].items():
                 tot[key][kk] = tot[key].get(kk, 0) + v
-        for key in ("shapes_nontrivial", "shapes_all", "bigrams", "fault_victims", "states"):
+        for key in ("shapes_nontrivial", "shapes_all", "bigrams", "fault_victims", "states", "lines"):
             tot[key].update(map(_tup, r[key]))
+        tot["cover_runs"] += r.get("cover_runs", 0)
         tot["failures"].extend(r["failures"])
         tot["harness"].extend(r["harness"])
         for kk, v in r["known_hits"].items():
